@@ -63,9 +63,20 @@ ARCH_VOCAB3 = [
     Sym("containing_modules", ["ba", "c"]),
     Sym("containing_modules", ["mod", "ba"]),
 ]
+# a layer defined by a regex that is literally a module name, and that name then offered to another layer by name (str
+# form, list form, inside a longer list): the module would sit in two layers
+ARCH_VOCAB_RX = [
+    Sym("layer", "L1"),
+    Sym("layer", "L2"),
+    Sym("have_modules_with_names_matching", "mod"),
+    Sym("have_modules_with_names_matching", "a.*"),
+    Sym("containing_modules", "mod"),
+    Sym("containing_modules", ["mod"]),
+    Sym("containing_modules", ["a", "mod"]),
+]
 # LayerRule chains: C13's vocabulary plus an architecture object that holds no layer at all
 LAYER_VOCAB16 = LAYER_VOCAB + [Sym("based_on", "EMPTY_ARCH")]
-VOCABS = {"arch": ARCH_VOCAB, "arch3": ARCH_VOCAB3, "archread": ARCH_VOCAB_READ}
+VOCABS = {"arch": ARCH_VOCAB, "arch3": ARCH_VOCAB3, "archread": ARCH_VOCAB_READ, "archrx": ARCH_VOCAB_RX}
 
 
 def _mk_layered():
@@ -188,6 +199,8 @@ def instances(tier: str) -> list[dict]:
     for first in range(3):
         out.append({"part": "arch3", "first": first, "L": 6 if tier == "quick" else 7})
     out.append({"part": "archread", "first": 0, "L": 7 if tier == "quick" else 8})
+    for first in range(2):
+        out.append({"part": "archrx", "first": first, "L": 5 if tier == "quick" else 6})
     for first in range(len(LAYER_VOCAB16)):
         out.append({"part": "rule", "first": first, "L": L})
     from vf.engine.xh import kernel_names
